@@ -155,7 +155,7 @@ def jobs_for(ctx, deep=False):
     fixed = []
     for pkb in (1, 2):
         for ops in G.small_scope(maxlen, pkb):
-            if len(ops) - 2 == maxlen and not deep and ctx.rng.random() > (0.12 if thorough else 0.25):
+            if len(ops) - 2 == maxlen and not deep and ctx.rng.random() > (0.12 if thorough else 0.4):
                 continue  # the longest length is a seeded sample: 1/4 of length 3 (quick), 1/8 of length 4 (thorough)
             fixed.append((True, ops))
     # the same histories with expire_on_commit=False where a commit occurs
@@ -163,7 +163,7 @@ def jobs_for(ctx, deep=False):
     step = 600
     for i in range(0, len(fixed), step):
         jobs.append(("fixed", fixed[i : i + step]))
-    nchunks = 48 if thorough else 12
+    nchunks = 48 if thorough else 14
     per = 900 if thorough else 320
     profiles = ["uniform", "plain", "nested", "detach"]
     for c in range(nchunks):
@@ -190,27 +190,9 @@ def corpus_cases():
 def evaluate(ctx, cases, label):
     from harness import lib_uow_check as K
 
-    K.evaluate(ctx, cases, label, "c35", ENUMERATED)
+    K.evaluate(ctx, cases, label, "c35")
 
 
-# keys of the genuine defects of the unchanged tree (see known_findings.d/C35.json)
-ENUMERATED = {
-    "c35-B:deleted_to_persistent-fired-in-state-S",
-    "c35-B:persistent_to_transient-fired-in-state-X",
-    "c35-B:pending_to_transient-fired-in-state-T",
-    "c35-C2:commit-leaves-D",
-    "c35-D:imap-entry-D",
-    "c35-C2:close-leaves-D",
-    "c35-C2:expunge_all-leaves-D",
-    "c35-D:persistent-not-in-imap",
-    "c35-B:now-D-but-events-lead-to-S",
-    "c35-B:now-T-but-events-lead-to-X",
-    "c35-B:now-X-but-events-lead-to-T",
-    "c35-B:persistent_to_deleted-fired-in-state-D",
-    "c35-B:deleted_to_detached-fired-in-state-X",
-    "c35-D:imap-entry-X",
-    "c35-E:rollback-raised-InvalidRequestError",
-}
 
 
 def run(ctx, deep=False):
